@@ -34,7 +34,10 @@ func binderNameProvenanceOK(f *FC, t ir.Term, depth int) bool {
 	case *ir.App:
 		if fr, ok := x.Fun.(*ir.FuncRef); ok {
 			switch strings.TrimPrefix(fr.Key, f.Path+".") {
-			case "psIdentName", "csConstructorName", "uniqueTmpVarName", "psStringVal":
+			case "psIdentName", "psStringVal":
+				// the identifier at a position reached by consuming specific tokens only
+				return len(x.Args) == 1 && identStateOK(f, x.Args[0], 0)
+			case "csConstructorName", "uniqueTmpVarName":
 				return true
 			}
 		}
@@ -45,7 +48,7 @@ func binderNameProvenanceOK(f *FC, t ir.Term, depth int) bool {
 			if fr, ok := y.Fun.(*ir.FuncRef); ok {
 				switch strings.TrimPrefix(fr.Key, f.Path+".") {
 				case "psIdentNameNx", "psIdentOrUSNameNx", "psIdentNameNxL", "psStringValNx":
-					return x.I == 1
+					return x.I == 1 && len(y.Args) == 1 && identStateOK(f, y.Args[0], 0)
 				}
 			}
 		case *ir.Tuple:
@@ -93,6 +96,43 @@ func binderNameProvenanceOK(f *FC, t ir.Term, depth int) bool {
 			}
 		}
 		return ok
+	}
+	return false
+}
+
+// identStateOK: the state an identifier is read from was reached from a parameter by consuming specific tokens
+// (psConsume / psMulConsume), opening the scope, skipping line ends, or reading a preceding identifier — not
+// through a function that decides by itself how many tokens to skip (a "skip an optional keyword" helper makes an
+// identifier that happens to spell that keyword disappear from the name).
+func identStateOK(f *FC, t ir.Term, depth int) bool {
+	if depth > 8 {
+		return false
+	}
+	switch x := t.(type) {
+	case *ir.Param, *ir.Local:
+		return true
+	case *ir.App:
+		fr, ok := x.Fun.(*ir.FuncRef)
+		if !ok || len(x.Args) == 0 {
+			return false
+		}
+		switch strings.TrimPrefix(fr.Key, f.Path+".") {
+		case "psConsume", "psMulConsume":
+			return len(x.Args) == 2 && identStateOK(f, x.Args[1], depth+1)
+		case "psPushScope", "psPushOffside", "psSkipEOL", "psNext", "psNextNOL":
+			return identStateOK(f, x.Args[0], depth+1)
+		}
+		return false
+	case *ir.Proj:
+		if y, ok := x.X.(*ir.App); ok && x.I == 0 {
+			if fr, ok := y.Fun.(*ir.FuncRef); ok && len(y.Args) == 1 {
+				switch strings.TrimPrefix(fr.Key, f.Path+".") {
+				case "psIdentNameNx", "psIdentOrUSNameNx":
+					return identStateOK(f, y.Args[0], depth+1)
+				}
+			}
+		}
+		return false
 	}
 	return false
 }
